@@ -48,6 +48,7 @@ func init() {
 
 func runC07(c *Ctx) {
 	w := c.W
+	c07Extras(c)
 	bc := w.Fn(fnBuildChains)
 	if bc == nil {
 		c.Undecided("R-CUT", fnBuildChains, "anchor", "-", "function not found")
